@@ -1126,6 +1126,13 @@ pub fn run_c05(tier: &str, seed: u64) -> Report {
             if segs[3].len() > 1 {
                 edits.push((format!("{}.{}", base, &segs[3][..segs[3].len() - 1]), f.clone(), "footer-segment-truncated"));
             }
+            // white space (ASCII and Unicode) and other invisible characters glued to the segment, before it, or in front of the
+            // whole token: the segment is then no longer base64url(F)
+            for ws in [" ", "\n", "\r\n", "\t", "\u{a0}", "\u{3000}", "\u{200b}", "\u{feff}", "\0", "\u{c}", "  \n"] {
+                edits.push((format!("{}.{}{}", base, segs[3], ws), f.clone(), "footer-segment-followed-by-white-space"));
+                edits.push((format!("{}.{}{}", base, ws, segs[3]), f.clone(), "footer-segment-preceded-by-white-space"));
+                edits.push((format!("{}{}.{}", ws, base, segs[3]), f.clone(), "token-preceded-by-white-space"));
+            }
             // non-canonical encodings of the SAME footer bytes: padding, non-zero trailing bits, standard alphabet
             for pad in ["=", "==", "==="] {
                 edits.push((format!("{}.{}{}", base, segs[3], pad), f.clone(), "footer-segment-padded"));
@@ -1306,7 +1313,7 @@ pub fn replay_c05(case: &Value) -> Report {
     r
 }
 
-pub const RULE_C05: &str = "8 protocols x 3 layers x footer catalogue (none, empty, 40 strings + 20 (thorough 300) seeded random ones; incl. prefix/extension pairs, case and whitespace variants, NUL suffix, NFC/NFD, strings whose base64 differs in the last character, strings that are themselves base64 or contain dots): a token is built with each footer F through that layer's builder and presented to that layer's parser with every expected footer F' of the catalogue; oracle: accept iff F' == F with none == empty (string equality in the harness). Plus swaps of the footer with its neighbouring pieces ((footer X, no assertion) presented as (no footer, assertion X) and vice versa; for public tokens (empty message, footer X) as (message X, no footer); small, 9 000-byte and 70 000-byte messages). Plus a re-cut across a length prefix (the first d bytes of the footer, preceded by the footer's length field, are moved behind the message / ciphertext and the rest is presented as footer, d in {128, 256, 65536}: collides iff the PAE length encoding is not injective). Plus a footer LENGTH sweep (every length 0..=330 and 65535..65537: built, opened with the same footer, its one-byte-shorter prefix, its one-byte extension and same-length footers differing only in the last byte / last eight bytes). Plus parser sessions (the expected footer is changed between parses of one parser object) and 160 (thorough 2000) NESTED pairs of them (a second parser object is created, used and dropped in the middle of another one's session on the same thread; both must answer as alone). Plus the footer segment of every produced token compared with the harness's own base64url encoder, and edits of the segment (removed, emptied, replaced with and without matching expectation, extended, truncated, raw text, followed by further segments, added to a footer-less token with a matching, an empty and NO expectation). distinct_nontrivial = distinct (protocol, layer, built class, supplied class) for accepted pairs and (protocol, layer, case class, rejection variant) for rejected ones; plus builder reuse incl. a batteries builder used again after a REFUSED build and a claim-less GenericBuilder (any token still produced is bound to the configured footer)";
+pub const RULE_C05: &str = "8 protocols x 3 layers x footer catalogue (none, empty, 40 strings + 20 (thorough 300) seeded random ones; incl. prefix/extension pairs, case and whitespace variants, NUL suffix, NFC/NFD, strings whose base64 differs in the last character, strings that are themselves base64 or contain dots): a token is built with each footer F through that layer's builder and presented to that layer's parser with every expected footer F' of the catalogue; oracle: accept iff F' == F with none == empty (string equality in the harness). Plus swaps of the footer with its neighbouring pieces ((footer X, no assertion) presented as (no footer, assertion X) and vice versa; for public tokens (empty message, footer X) as (message X, no footer); small, 9 000-byte and 70 000-byte messages). Plus a re-cut across a length prefix (the first d bytes of the footer, preceded by the footer's length field, are moved behind the message / ciphertext and the rest is presented as footer, d in {128, 256, 65536}: collides iff the PAE length encoding is not injective). Plus a footer LENGTH sweep (every length 0..=330 and 65535..65537: built, opened with the same footer, its one-byte-shorter prefix, its one-byte extension and same-length footers differing only in the last byte / last eight bytes). Plus parser sessions (the expected footer is changed between parses of one parser object) and 160 (thorough 2000) NESTED pairs of them (a second parser object is created, used and dropped in the middle of another one's session on the same thread; both must answer as alone). Plus the footer segment of every produced token compared with the harness's own base64url encoder, and edits of the segment (removed, emptied, replaced with and without matching expectation, extended, truncated, with ASCII / Unicode white space or invisible characters glued behind or in front of the segment or in front of the token, raw text, followed by further segments, added to a footer-less token with a matching, an empty and NO expectation). distinct_nontrivial = distinct (protocol, layer, built class, supplied class) for accepted pairs and (protocol, layer, case class, rejection variant) for rejected ones; plus builder reuse incl. a batteries builder used again after a REFUSED build and a claim-less GenericBuilder (any token still produced is bound to the configured footer)";
 
 // ==========================================================================================
 // C06
